@@ -1,5 +1,6 @@
 // C15: shared between the generated list TUs and the harness.
 #pragma once
+#include <array>
 #include <string>
 #include <memory>
 #include <vector>
@@ -439,4 +440,64 @@ namespace c15
     // provided by the generated TUs
     const ListEntry* lists_part(int part, int* n);
     int lists_parts();
+
+    // ------------------------------------------------------------------ report of the real code
+    using Report = std::array<bool, N_ARCH>;
+
+    inline Report read_report(const xsimd::detail::supported_arch& s)
+    {
+        Report r;
+        r[A_SSE2] = s.has(xsimd::sse2 {});
+        r[A_SSE3] = s.has(xsimd::sse3 {});
+        r[A_SSSE3] = s.has(xsimd::ssse3 {});
+        r[A_SSE4_1] = s.has(xsimd::sse4_1 {});
+        r[A_SSE4_2] = s.has(xsimd::sse4_2 {});
+        r[A_FMA3_SSE] = s.has(xsimd::fma3<xsimd::sse4_2> {});
+        r[A_FMA4] = s.has(xsimd::fma4 {});
+        r[A_AVX] = s.has(xsimd::avx {});
+        r[A_FMA3_AVX] = s.has(xsimd::fma3<xsimd::avx> {});
+        r[A_AVX2] = s.has(xsimd::avx2 {});
+        r[A_FMA3_AVX2] = s.has(xsimd::fma3<xsimd::avx2> {});
+        r[A_AVXVNNI] = s.has(xsimd::avxvnni {});
+        r[A_AVX512F] = s.has(xsimd::avx512f {});
+        r[A_AVX512CD] = s.has(xsimd::avx512cd {});
+        r[A_AVX512DQ] = s.has(xsimd::avx512dq {});
+        r[A_AVX512BW] = s.has(xsimd::avx512bw {});
+        r[A_AVX512ER] = s.has(xsimd::avx512er {});
+        r[A_AVX512PF] = s.has(xsimd::avx512pf {});
+        r[A_AVX512IFMA] = s.has(xsimd::avx512ifma {});
+        r[A_AVX512VBMI] = s.has(xsimd::avx512vbmi {});
+        r[A_AVX512VBMI2] = s.has(xsimd::avx512vbmi2 {});
+        r[A_AVX512VNNI_BW] = s.has(xsimd::avx512vnni<xsimd::avx512bw> {});
+        r[A_AVX512VNNI_VBMI2] = s.has(xsimd::avx512vnni<xsimd::avx512vbmi2> {});
+        r[A_NEON] = s.has(xsimd::neon {});
+        r[A_NEON64] = s.has(xsimd::neon64 {});
+        r[A_I8MM] = s.has(xsimd::i8mm<xsimd::neon64> {});
+        r[A_SVE] = s.has(xsimd::detail::sve<512> {}) || s.has(xsimd::detail::sve<256> {}) || s.has(xsimd::detail::sve<128> {});
+        r[A_RVV] = s.has(xsimd::detail::rvv<512> {}) || s.has(xsimd::detail::rvv<256> {}) || s.has(xsimd::detail::rvv<128> {});
+        r[A_WASM] = s.has(xsimd::wasm {});
+        return r;
+    }
+    inline uint64_t report_mask(const Report& r)
+    {
+        uint64_t m = 0;
+        for (int i = 0; i < N_ARCH; ++i)
+            m |= (uint64_t)r[i] << i;
+        return m;
+    }
+
+
+    // ------------------------------------------------------------------ observations made BEFORE main() (early.cpp)
+    // "Process start" has an interior: initialisers of other translation units run before main in an order the library does not control. A
+    // kernel registry constructed with an early init_priority, or a constructor function, may be the first caller of available_architectures()
+    // and may build its dispatchers then. What it saw is recorded here (plain data, constant-initialised, so no later initialiser resets it).
+    struct EarlyObservation
+    {
+        bool taken;
+        bool report[N_ARCH];
+    };
+    extern EarlyObservation g_early_registry, g_early_ctor;
+    int early_registry_dispatch(); // invokes the dispatcher the early registry built before main; returns the arch id it ran the functor with
+    int early_registry_calls();
+    const int* early_registry_list(int& n); // the list that dispatcher was built over (xsimd's default: supported_architectures), best first
 }
